@@ -35,6 +35,12 @@ NEEDS = {
  "C17-names-size-astral": ("C17", "a member name with an astral-plane character: the Names property size is 2 bytes short per such character"),
  "C19-dunits-without-b": ("C19", "a volume size with a 'b'/'B' suffix, which the validation pattern accepts"),
  "C19-seq-multifolder-testzip-skips": ("C19", ">= 2 folders, archive opened from a file object (as the CLI does), damaged packed data: 't' exits 0"),
+ "C02-link-in-postpass": ("C02", "a symbolic link stored AFTER its target (file or directory): the post-pass utime/chmod follows the link and stamps the link's mode 0777 and mtime onto the target"),
+ "C02-deref-dirlink-lstat": ("C02", "dereference=True and a symlink whose target is a directory with a mode other than 0777: the directory is stored with the link's lstat()"),
+ "C18-update-counter-not-reset": ("C18", "a member decoded in more than one pass (beyond one read block / memory-limit chunk) with at least one second between passes"),
+ "C18-post-after-early-return": ("C18", "a callback together with in-memory delivery (factory): the 'post' event is never queued"),
+ "C20-limit-only-first-stage": ("C20", "a coder chain whose expanding stage is not the first (7zAES + LZMA2/LZMA/BZip2/PPMd) and a highly compressible member"),
+ "C20-compress-reads-rest-at-once": ("C20", "creating an archive with a member larger than one read block (only memory shows it: the archive is byte-identical)"),
 }
 res = {}
 for line in [l for f in LOGS for l in open(f)]:
